@@ -113,6 +113,8 @@ template<int B> static void blocked_case(Tape& t, Ctx& c)
   int op = t.range(0, 3);
   std::vector<double> vals = gen_values(t, idx.size() * B, vcls), vv = gen_values(t, (size_t)(n * B), vcls);
   if(kind == 1) for(size_t k = 0; k < idx.size(); ++k) { bool allz = true; for(int j = 0; j < B; ++j) if(vals[k * B + j] != 0.0) allz = false; if(allz) vals[k * B] = 1.0; }   // slip normals are non-zero
+  // slip normals are not unit vectors (the assembler stores area-weighted normals of length ~h^(d-1)): scale classes down to |n| ~ 2^-70
+  if(kind == 1) { static const double scl[] = {1.0, 0x1p-20, 0x1p-40, 0x1p-70}; const int sc = t.pick({3, 1, 1, 1}); if(sc) { for(auto& v : vals) v *= scl[sc]; c.label("slip-normal-scale:2^-" + std::to_string(sc == 1 ? 20 : sc == 2 ? 40 : 70)); } }
   // component-wise (partial) constraints: with ignore_nans a NaN filter value leaves that component unconstrained
   bool nans = (kind != 1) && t.flag(1, 3);
   if(nans) for(size_t k = 0; k < idx.size(); ++k) for(int j = 0; j < B; ++j) if(t.flag(1, 3)) vals[k * B + (size_t)j] = std::numeric_limits<double>::quiet_NaN();
